@@ -47,8 +47,10 @@ inductive Res where
 /-- Operations of a thread program. -/
 inductive Op where
   /-- `send_message_unchecked(m)`; `nested` runs inside `m.box_message()`;
-  `boxFails`: `box_message` returns `Err` afterwards. -/
-  | send (nested : List Op) (boxFails : Bool)
+  `boxFails`: `box_message` returns `Err` afterwards; `resend` (inert in the model): the
+  actor's handler, when it handles `m`, sends one more message to itself — in the model that
+  send is simply a send by another thread scheduled at that moment. -/
+  | send (nested : List Op) (boxFails : Bool) (resend : Bool := false)
   /-- `drain()` -/
   | drain
   /-- `send_message::<Wrong>(m)` on an untyped cell: rejected by the `TypeId` check. -/
@@ -99,6 +101,9 @@ structure Frame where
   /-- remaining program (`run`) / remaining nested program (send frames) -/
   ops : List Op := []
   boxFails : Bool := false
+  /-- ghost: ids of the sends that had already returned `Ok` when this send performed its first
+  step (`send.status`) -/
+  seenOk : List Nat := []
   deriving Repr, Inhabited
 
 inductive RKind where
@@ -111,6 +116,8 @@ structure Ret where
   id : Nat
   res : Res
   late : Bool
+  /-- ghost (sends): ids of the sends that had returned `Ok` before this one started -/
+  seenOk : List Nat := []
   deriving DecidableEq, Repr, Inhabited
 
 /-- Shared state (real + ghost). -/
@@ -124,6 +131,8 @@ structure Shared where
   rxOpen : Bool := true
   /-- the receiver left its loop (marker, stop, kill, failure) -/
   rxStopped : Bool := false
+  /-- ghost: the receiver left its loop for a reason other than the marker (`rxStop`) -/
+  stoppedByOther : Bool := false
   /-- ghost: every successful enqueue, in order -/
   enq : List Item := []
   /-- ghost: items the receiver dequeued, in order -/
@@ -177,14 +186,22 @@ def kindOf (f : Frame) : RKind :=
   | .bad => .bad
   | _ => .send
 
+/-- ids of the sends that returned `Ok`, in return order -/
+def okIds : List Ret → List Nat
+  | [] => []
+  | r :: l =>
+    (match r.kind, r.res with
+     | .send, .ok => [r.id]
+     | _, _ => []) ++ okIds l
+
 /-- The op of frame `f` returns `r`: log it and pop the frame. -/
 def finish (s : Shared) (f : Frame) (r : Res) (rest : List Frame) : Shared × List Frame :=
-  ({ s with rets := s.rets ++ [⟨kindOf f, f.id, r, f.late⟩] }, rest)
+  ({ s with rets := s.rets ++ [⟨kindOf f, f.id, r, f.late, f.seenOk⟩] }, rest)
 
 /-- Start `op` on top of `parent :: rest` (harness point `op.start`). -/
 def startOp (s : Shared) (op : Op) (parent : Frame) (rest : List Frame) : Shared × List Frame :=
   match op with
-  | .send nested bf =>
+  | .send nested bf _ =>
     ({ s with nextId := s.nextId + 1 },
       { pc := .sStatus, id := s.nextId, ops := nested, boxFails := bf } :: parent :: rest)
   | .drain => (s, { pc := .dClose } :: parent :: rest)
@@ -205,7 +222,7 @@ def stepThread (s : Shared) (stack : List Frame) : Option (Shared × List Frame)
       | op :: ops => some (startOp s op { f with ops := ops } rest)
     | .sStatus =>
       -- `if self.get_status() >= Draining { return Err(SendErr(m)) }`
-      let f := { f with late := s.word.closed }
+      let f := { f with late := s.word.closed, seenOk := okIds s.rets }
       if s.status ≥ stDraining then some (finish s f .sendErr rest)
       else some (s, { f with pc := .aLoad } :: rest)
     | .aLoad =>
@@ -265,7 +282,7 @@ def stepRx (s : Shared) : Tid → Shared
         { s with queue := q, deqd := s.deqd ++ [.drain], rxStopped := true,
                  drainedExits := s.drainedExits + 1 }
     else s
-  | .rxStop => { s with rxStopped := true }
+  | .rxStop => { s with rxStopped := true, stoppedByOther := true }
   | .rxClose => if s.rxStopped then { s with rxOpen := false } else s
   | .rxFlush => if s.rxOpen then s else { s with queue := [], flushed := s.flushed ++ s.queue }
   | .setStatus st => { s with status := max s.status st }
@@ -343,7 +360,7 @@ def cnt (p : Frame → Bool) (g : G) : Nat := (g.threads.map (fun st => st.count
 /-- No op is in flight (threads are between ops or finished). -/
 def quiescent (g : G) : Bool := cnt Frame.active g == 0
 
-/-- run-time oracle pieces evaluated on what the implementation did: see `Driver/Admission.lean` -/
+/-- helpers of the run-time oracle -/
 def nodupNat : List Nat → Bool
   | [] => true
   | x :: l => !l.contains x && nodupNat l
@@ -352,5 +369,75 @@ def isSubseq : List Nat → List Nat → Bool
   | [], _ => true
   | _ :: _, [] => false
   | x :: xs, y :: ys => if x == y then isSubseq xs ys else isSubseq (x :: xs) ys
+
+/-! ### The run-time oracle: a decidable predicate on end-of-case observations
+
+`Obs` is what can be observed of a finished case — of the model (`obsOf`) as well as of the real
+implementation (the driver fills it from the harness's records). `Obs.violations` lists the
+violated clauses; `Props/C07.lean` proves it empty for every end state of the model, and the
+driver evaluates the very same function on the implementation's observations. -/
+
+structure Obs where
+  /-- returned ops in order; for sends `late` = the `closed` bit seen just before the first step -/
+  rets : List Ret
+  /-- ids in the order the handler saw them -/
+  handled : List Nat
+  /-- the admission word at the end -/
+  word : Word
+  /-- number of exits with reason "Drained" the supervisor saw -/
+  drainedExits : Nat
+  /-- the actor was stopped / killed from outside during the case -/
+  otherExit : Bool
+  /-- the actor is still alive at the end -/
+  alive : Bool
+  deriving Repr, Inhabited
+
+def Ret.isSend (r : Ret) : Bool :=
+  match r.kind with | .send => true | _ => false
+
+def Ret.isOkSend (r : Ret) : Bool :=
+  r.isSend && (match r.res with | .ok => true | _ => false)
+
+/-- position of `x` in `l` -/
+def indexOf? (l : List Nat) (x : Nat) : Option Nat :=
+  match l with
+  | [] => none
+  | y :: ys => if x == y then some 0 else (indexOf? ys x).map (· + 1)
+
+/-- `a` is handled before `b` — or `b` is not handled at all -/
+def orderedIn (a b : Nat) (l : List Nat) : Bool :=
+  match indexOf? l a, indexOf? l b with
+  | some x, some y => x < y
+  | none, some _ => false
+  | _, _ => true
+
+def Obs.violations (o : Obs) : List String :=
+  -- C02 (a): handled at most once, only messages whose send returned Ok
+  (if nodupNat o.handled then [] else ["handled-twice"]) ++
+  (if o.handled.all (fun i => o.rets.any (fun r => r.isOkSend && r.id == i)) then [] else ["handled-without-ok"]) ++
+  -- C02 (a): exactly once unless the actor exited for another reason
+  (if o.otherExit || o.rets.all (fun r => !r.isOkSend || o.handled.contains r.id) then [] else ["ok-not-handled"]) ++
+  -- C02 (b): real-time order ⇒ handling order: a send that had returned Ok before another one
+  -- started is handled first
+  (if o.rets.all (fun r2 => !r2.isOkSend || r2.seenOk.all (fun m1 => orderedIn m1 r2.id o.handled)) then []
+    else ["order"]) ++
+  -- C07 (1): nothing admitted after the close
+  (if o.rets.all (fun r => !(r.isSend && r.late) || r.res == .sendErr) then [] else ["admitted-after-close"]) ++
+  -- C07 (2)/(5): at quiescence no ticket is outstanding and closed ⇒ marker
+  (if o.word.count == 0 then [] else ["count-not-zero"]) ++
+  (if !o.word.closed || o.word.marker then [] else ["closed-without-marker"]) ++
+  -- C07 (3)/(5): exactly one "Drained" exit after a drain unless stop/kill intervened; never two
+  (if o.drainedExits ≤ 1 then [] else ["drained-twice"]) ++
+  (if !o.word.closed || o.otherExit || (o.drainedExits == 1 && !o.alive) then [] else ["drain-never-finishes"]) ++
+  (if o.word.closed || o.drainedExits == 0 then [] else ["drained-without-drain"])
+
+def obsOf (g : G) : Obs :=
+  { rets := g.sh.rets, handled := g.sh.handled, word := g.sh.word, drainedExits := g.sh.drainedExits,
+    otherExit := g.sh.stoppedByOther, alive := g.sh.rxOpen }
+
+/-- End of a case: no op in flight, and the receiver ran until it blocked (nothing left in the
+channel; if it left its loop it has also closed the channel). -/
+def endState (g : G) : Bool :=
+  quiescent g && g.sh.queue.isEmpty && (!g.sh.rxStopped || !g.sh.rxOpen)
 
 end Admission
